@@ -358,6 +358,17 @@ fn comp_sample(spec: &Spec, rng: &mut crate::rngseam::WordRng) -> Option<V> {
     }
 }
 
+/// every R^n / SO(2) part bounded (so that the stream audit can map its coordinates to [0,1))
+fn has_bounded_parts(spec: &Spec) -> bool {
+    match as_parts(spec) {
+        Some((parts, _)) => parts.iter().all(|p| match p {
+            Spec::Rv { bounds, .. } => bounds.as_ref().map(|b| b.iter().all(|(l, u)| l.is_finite() && u.is_finite())).unwrap_or(false),
+            _ => true,
+        }),
+        None => false,
+    }
+}
+
 fn bits_eq(a: &V, b: &V) -> bool {
     a.bits() == b.bits()
 }
@@ -485,7 +496,16 @@ fn c13_space<K: Kit>(spec: &Spec, lat: &[V], ts: &[f64], rep: &mut Report, label
             _ => false,
         };
         if !same {
-            viol(rep, "C13", kit, &format!("{label}sample_uniform"), spec, "compound sample differs from sampling the components in order with the same RNG words".into(), json!({"got": got.map(|v| v.json()), "want": want.map(|v| v.iter().map(|x| x.json()).collect::<Vec<_>>())}));
+            // another way of handing the generator to the components may still be component-wise sampling:
+            // only alarm when the law itself is broken on real streams (once per space)
+            if seed == 0 {
+                rep.count("sampling_word_order_differs", 1);
+                if has_bounded_parts(spec) {
+                    if let Err(e) = crate::props_uniform::generic_stream_audit::<K>(spec) {
+                        viol(rep, "C13", kit, &format!("{label}sample_uniform"), spec, format!("the compound sample differs from sampling the components in order with the same RNG words, and on real generator streams: {e}"), json!({"got": got.map(|v| v.json()), "want": want.map(|v| v.iter().map(|x| x.json()).collect::<Vec<_>>())}));
+                    }
+                }
+            }
         }
     }
 }
